@@ -88,10 +88,11 @@ struct Host {
   unsigned envPad = 0; std::string lang;
   int err = 0;                                   // errno left behind by whatever ran before
   uint64_t clock = 0; int pid = 0;               // what the clock and getpid() say (0: the pristine 1000000000 / 4242)
-  bool pristine() const { return heapMode == sim::heap::ZERO && stackMode == sim::STACK_ZERO && arenaMode == 0 && !padSeed && !scribble && !baseShift && !shift && !envPad && lang.empty() && !err && !clock && !pid; }
+  unsigned preOut = 0;                           // C11: the output path already holds a file (odd: what the previous step left there; else junk of preOut % 6000 + 1 bytes)
+  bool pristine() const { return heapMode == sim::heap::ZERO && stackMode == sim::STACK_ZERO && arenaMode == 0 && !padSeed && !scribble && !baseShift && !shift && !envPad && lang.empty() && !err && !clock && !pid && !preOut; }
   std::string str() const {
     return std::string("heap=") + sim::heap::modeName(heapMode) + (padSeed ? "+pad" : "") + (shuffle ? "+shuffle" : "") + (scribble ? "+scribble" : "") + (baseShift ? "+shift" : "") +
-           " stack=" + std::to_string(stackMode) + (shift ? "+shift" : "") + " arena=" + std::to_string(arenaMode) + (envPad ? " env" : "") + (err ? " errno=" + std::to_string(err) : "") + (clock ? " clock" : "");
+           " stack=" + std::to_string(stackMode) + (shift ? "+shift" : "") + " arena=" + std::to_string(arenaMode) + (envPad ? " env" : "") + (err ? " errno=" + std::to_string(err) : "") + (clock ? " clock" : "") + (preOut ? " preout" : "");
   }
 };
 Host hostFrom(const Json &op) {
@@ -110,6 +111,7 @@ Host hostFrom(const Json &op) {
   h.envPad = (unsigned)(op.getU64("env_pad") % 4096); h.lang = op.getStr("lang");
   h.err = (int)(op.getU64("errno") % 134);
   h.clock = op.getU64("clock"); h.pid = (int)(op.getU64("pid") % 4000000);
+  h.preOut = (unsigned)(op.getU64("pre_out") % (1u << 24));
   return h;
 }
 Json hostToJson(Json op, const Host &h) {
@@ -126,6 +128,7 @@ Json hostToJson(Json op, const Host &h) {
   if (h.err) op["errno"] = h.err;
   if (h.clock) op["clock"] = (unsigned long long)h.clock;
   if (h.pid) op["pid"] = h.pid;
+  if (h.preOut) op["pre_out"] = h.preOut;
   return op;
 }
 Host randomHost(Rng &r, bool c12) {
@@ -145,6 +148,7 @@ Host randomHost(Rng &r, bool c12) {
   if (r.chance(1, 4)) { static const char *l[] = {"C", "POSIX", "en_US.UTF-8", "tr_TR.UTF-8", "de_DE"}; h.lang = l[r.below(5)]; }
   if (r.chance(1, 3)) { static const int e[] = {ERANGE, EINTR, ENOENT, EAGAIN, EINVAL, ENOMEM}; h.err = e[r.below(6)]; }
   if (r.chance(1, 2)) { h.clock = 946684800 + r.below(2000000000); h.pid = 2 + (int)r.below(300000); }
+  if (!c12 && r.chance(1, 3)) h.preOut = 1 + (unsigned)r.below((1u << 24) - 1);
   return h;
 }
 void applyEnv(const Host &h) {
@@ -243,13 +247,13 @@ public:
     Json real = Json::array(), stub = Json::array();
     if (property == "C12") {
       real.push("hexsim.hpp Processor constructor/load/run/trace (working tree, -DHEX_VERIF) placed on a simulator-filled backing store");
-      real.push("hexsim.cpp main and xrun.cpp main on a dirtied, shifted stack; libstdc++ streams");
+      real.push("hexsim.cpp main and xrun.cpp main on a private fixed-address stack (planned fill and entry shift, ASLR off); libstdc++ streams");
       stub.push("backing store of the Processor, stack contents and depth, operator new contents and placement, environment");
       stub.push("stdin/stdout (byte-granular), files (memfd table)");
       d["oracle"] = "hexref with zero-initialised memory; self-consistency across host states for cut runs; system-call sequence (H1) for trace on vs off";
     } else {
       real.push("xcmp.cpp main / xcmp::Driver (all emit actions), hexasm.cpp main (working tree)"); real.push("libstdc++ streams, boost::format");
-      stub.push("operator new: fill (zero/ones/prng/pointer-like/stale), padding, recycling order, base shift; stack contents and depth; environment; compilation history inside the process");
+      stub.push("operator new: fill (zero/ones/prng/pointer-like/stale), overwrite on free, padding, recycling order, base shift; stack contents and depth (private fixed-address stack); environment, errno, clock, pid; compilation history inside the process");
       stub.push("stdin/stdout/stderr, files (memfd table)");
       d["oracle"] = "the same tool on the same source in the pristine host state (zero heap, zero stack): status, diagnostics, listings and every emitted file byte-identical";
     }
@@ -455,7 +459,7 @@ public:
   }
   void simplifyHost(const Json &op, std::vector<Json> &out) {
     // Towards the pristine host state, one dimension at a time.
-    for (const char *k : {"pad_seed", "base_shift", "shuffle", "scribble", "shift", "env_pad", "lang", "arena", "stack", "errno", "clock", "pid"}) {
+    for (const char *k : {"pad_seed", "base_shift", "shuffle", "scribble", "shift", "env_pad", "lang", "arena", "stack", "errno", "clock", "pid", "pre_out"}) {
       if (!op.has(k)) continue;
       Json c = op; c.erase(k);
       if (std::string(k) == "stack") c["stack"] = 1;
@@ -650,6 +654,7 @@ public:
       sim::g_log.evs("run", hosts[k].str() + (asTool ? " tool" : " lib") + " -> " + r.t.str() + " out=" + std::to_string(r.out.size()));
       o.count(std::string("fault.host_heap_") + sim::heap::modeName(hosts[k].heapMode));
       o.count("fault.host_arena_" + std::to_string(hosts[k].arenaMode));
+      if (hosts[k].scribble) o.count("fault.heap_scribble_on_free");
       o.count("fault.host_stack_" + std::to_string(hosts[k].stackMode));
       if (asTool) o.count("probe.tool_level_run");
       o.stateKeys.push_back("c12 img=" + imgClass + " arena=" + std::to_string(hosts[k].arenaMode) + " stack=" + std::to_string(hosts[k].stackMode) + (asTool ? " tool" : " lib") + (exited ? " exit" : " cut"));
@@ -853,12 +858,13 @@ public:
     if (fd >= 0) { ssize_t w = ::write(fd, line.data(), line.size()); (void)w; ::close(fd); }
   }
 
-  StepRes runStep(const std::string &tool, const std::string &action, const std::string &via, const std::string &src, const Host &h) {
+  StepRes runStep(const std::string &tool, const std::string &action, const std::string &via, const std::string &src, const Host &h, const std::string *preOut = nullptr) {
     StepRes res;
     sim::fs::reset();
     bool isX = tool == "xcmp";
     std::string srcName = isX ? "src.x" : "src.S";
     sim::fs::put(srcName, src);
+    if (preOut) sim::fs::put("out.bin", *preOut);      // the output path is already taken (an earlier build, or anything else)
     ss.attach("");
     if (isX && via == "lib") {
       res.t = underHost(h, [&]() -> int {
@@ -907,6 +913,7 @@ public:
 
   void execC11(const Json &plan, Outcome &o) {
     unsigned pos = 0;
+    std::string lastOut;          // what the previous step of this history left at the output path
     for (auto &op : plan.at("ops").a) {
       if (op.getStr("op") != "step") continue;
       std::string tool = op.getStr("tool", "xcmp"), action = op.getStr("action", "binary"), via = op.getStr("via", "main");
@@ -936,8 +943,17 @@ public:
         o.note = "skipped:tool_crashes_on_source";
         return;                      // the process is damaged; the worker restarts
       }
-      StepRes r = runStep(tool, action, via, src, h);
+      std::string pre;
+      if (h.preOut) {
+        if ((h.preOut & 1) && !lastOut.empty()) pre = lastOut;
+        else { uint64_t sd = h.preOut; size_t n = 1 + h.preOut % 6000; for (size_t q = 0; q < n; q++) pre.push_back((char)(sim::splitmix64(sd) >> 24)); }
+        o.count(pre == lastOut ? "fault.output_path_holds_previous_build" : "fault.output_path_holds_junk");
+      }
+      StepRes r = runStep(tool, action, via, src, h, h.preOut ? &pre : nullptr);
       if (hung(r.t)) { o.count("probe.watchdog_hit"); o.note = "skipped:watchdog"; return; }
+      // A step that writes no binary (listing action, rejected source) leaves the file that was there.
+      if (h.preOut && !ref.files.count("out.bin")) { auto f = r.files.find("out.bin"); if (f != r.files.end() && f->second == pre) r.files.erase(f); }
+      { auto f = r.files.find("out.bin"); if (f != r.files.end()) lastOut = f->second; }
       sim::g_log.evs("step", std::to_string(pos) + " " + tool + "/" + action + "/" + via + " " + h.str() + " -> " + r.str(), sim::hashStr(src));
       o.simInstr++;
       o.nontrivial = true;
